@@ -71,10 +71,7 @@ ASSUMPTIONS = [
 ]
 
 # development aid ("oracle|cls|exc"); MUST be empty in the final module
-EXCLUDE_CLASSES = set([
-    "dep-param|did/target|",
-    "unexpected-exception|did|error",
-])  # DEV
+EXCLUDE_CLASSES = set()
 
 DEFAULTS = {"brs": 2, "lri": 3, "lrt": 3, "rwt": 8, "miu": 248, "lto": 500,
             "lsc": 3, "agf": True}
@@ -316,8 +313,11 @@ def pdu_infos(raw):
             ln = struct.unpack_from(">H", raw, pos)[0]
             sub = raw[pos + 2:pos + 2 + ln]
             if len(sub) >= 2:
-                q = ref.decode(sub)
-                out.append(("AGF/" + q["type"], ref.info_len(sub)))
+                try:
+                    name = ref.decode(sub)["type"]
+                except ref.RefReject as r:
+                    name = "undecodable:" + r.reason
+                out.append(("AGF/" + name, ref.info_len(sub)))
             pos += 2 + ln
     return out
 
